@@ -172,6 +172,7 @@ type BuildReq struct {
 	CrashLabel string `json:"crashlabel,omitempty"`
 	CrashHit   int    `json:"crashhit,omitempty"`
 	CountHits  bool   `json:"counthits,omitempty"`
+	SaveJitter bool   `json:"savejitter,omitempty"` // child processes: short sleeps inside record writes, so that writes of parallel targets overlap
 }
 
 // Step is one action of a watch-style session on a loaded Project.
@@ -477,9 +478,7 @@ func RunBuild(env *Env, req BuildReq, logOff int) (res BuildResult, newOff int) 
 			// After a cyclic-dependency error the runner returns while other targets may still be
 			// running (or not even started); wait until the goroutines of this run are gone
 			// before looking at the events or touching the tree again.
-			for i := 0; i < 600 && runtime.NumGoroutine() > baseGoroutines; i++ {
-				time.Sleep(5 * time.Millisecond)
-			}
+			settleGoroutines(baseGoroutines)
 		}
 		if err != nil {
 			res.RunErr = err.Error()
@@ -687,9 +686,7 @@ func (s *Sim) WatchBuild(req BuildReq) (res BuildResult) {
 	}
 	if err := s.sess.proj.Run(l, &dawn.RunOptions{Always: req.Always, DryRun: req.DryRun}); err != nil {
 		res.RunErr = err.Error()
-		for i := 0; i < 600 && runtime.NumGoroutine() > baseGoroutines; i++ {
-			time.Sleep(5 * time.Millisecond)
-		}
+		settleGoroutines(baseGoroutines)
 	}
 	return res
 }
@@ -760,4 +757,26 @@ func (s *Sim) OldFormatRecord(id int) bool {
 	rec["stamp"] = base64.StdEncoding.EncodeToString(buf.Bytes())
 	out, _ := json.Marshal(rec)
 	return os.WriteFile(path, out, 0o644) == nil
+}
+
+// settleGoroutines waits until the goroutines of a failed run are gone: until the count is back at its
+// value from before the run, or has not moved for two seconds (goroutines parked for good), at most a
+// minute. Under a loaded machine stragglers of a run that ended with a cycle error can take seconds.
+func settleGoroutines(base int) {
+	last, same := -1, 0
+	for i := 0; i < 12000; i++ {
+		n := runtime.NumGoroutine()
+		if n <= base {
+			return
+		}
+		if n == last {
+			same++
+			if same >= 400 {
+				return
+			}
+		} else {
+			last, same = n, 0
+		}
+		time.Sleep(5 * time.Millisecond)
+	}
 }
